@@ -2,6 +2,7 @@
 # implementation's own trace (parsed observations of the real contracts).
 # Each monitor: f(cfg_tokens, steps) -> list of {"step": idx, "what": text}
 from common import *
+import b32
 
 U128 = 2 ** 128 - 1
 DEC = 10 ** 18
@@ -153,6 +154,11 @@ def mon_c03(cfg, steps):
                 out.append({"step": s.idx, "what": "LiquidStake minted %d but delivers %d LST to %s" % (m, c["amount"], to)})
             if to != recipient:
                 out.append({"step": s.idx, "what": "LiquidStake delivers to %s, recipient is %s" % (to, recipient)})
+            is_nat = b32.valid_addr(recipient, s.pre["native"]["prefix"]); is_pro = b32.valid_addr(recipient, s.pre["protocol"]["prefix"])
+            want_ibc = (is_nat and not is_pro) or (is_nat and is_pro and t[7] == "1")
+            if want_ibc != (c["facet"] == "msg:transfer"):
+                out.append({"step": s.idx, "what": "LiquidStake delivers by %s but the recipient %s (native-valid %s, protocol-valid %s, transfer_to_native_chain %s) requires %s"
+                            % ("IBC transfer" if c["facet"] == "msg:transfer" else "bank send", recipient, is_nat, is_pro, t[7], "an IBC transfer" if want_ibc else "a bank send")})
             if mints[0].get("denom") != lst or mints[0].get("sender") != unhex(cfg[2]).decode() or mints[0].get("addr") != unhex(cfg[2]).decode():
                 out.append({"step": s.idx, "what": "mint message fields wrong: %r" % {k2: mints[0].get(k2) for k2 in ("denom", "sender", "addr")}})
             n1, l1, _ = swept(s.pre)
@@ -173,4 +179,77 @@ def mon_c03(cfg, steps):
     return out
 
 
-MONITORS = {"C04": mon_c04, "C15": mon_c15, "C03": mon_c03}
+# ---------------- C08 ----------------
+ADMIN_ONLY = ("addval", "rmval", "updcfg", "xfer_own", "revoke_own", "resume", "feewd")
+
+
+def mon_c08(cfg, steps):
+    out = []
+    for s in steps:
+        t = s.optoks
+        if t[0] != "exec" or s.res != "ok" or s.pre is None:
+            continue
+        k = t[5]; who = unhex(t[3]).decode("utf-8", "replace"); pre = s.pre
+        def bad(msg):
+            out.append({"step": s.idx, "what": "%s succeeded for %s: %s" % (k, who, msg)})
+        if k in ADMIN_ONLY and who != pre["admin"]:
+            bad("not the admin %s" % pre["admin"])
+        if k == "recover" and t[7] != "-" and who != pre["admin"]:
+            bad("forced recovery by a non-admin (admin %s)" % pre["admin"])
+        if k == "breaker" and who != pre["admin"] and who not in pre["monitors"]:
+            bad("neither admin nor monitor")
+        if k == "accept_own" and who != pre["pending_owner"]:
+            bad("not the nominated account %s" % pre["pending_owner"])
+        if k == "rewards" and who != b32.hook_sender(pre["protocol"]["channel"], pre["native"]["collector"], pre["protocol"]["prefix"]):
+            bad("not the ibc-hooks account of the reward collector")
+        if k == "unstaked" and who != b32.hook_sender(pre["protocol"]["channel"], pre["native"]["staker"], pre["protocol"]["prefix"]):
+            bad("not the ibc-hooks account of the staker")
+        if k == "withdraw":
+            pays = [m for m in s.msgs if m["facet"] in ("msg:send", "msg:bank")]
+            if len(pays) != 1 or pays[0].get("to") != who:
+                bad("payout goes to %s" % [m.get("to") for m in pays])
+            gone = [r for r in pre["reqs"] if r not in s.st["reqs"]]
+            if any(r[1] != who for r in gone) or len(gone) != 1:
+                bad("requests removed: %r" % (gone,))
+    return out
+
+
+# ---------------- C10 ----------------
+SIX = ("stake", "unstake", "submit", "withdraw", "rewards", "unstaked")
+
+
+def strip(st, *keys):
+    d = dict(st)
+    for k in keys:
+        d.pop(k, None)
+    return d
+
+
+def mon_c10(cfg, steps):
+    out = []
+    for s in steps:
+        t = s.optoks
+        if t[0] == "inst" and s.res == "ok" and s.st and not s.st["stopped"]:
+            out.append({"step": s.idx, "what": "a newly instantiated contract is not halted"})
+        if t[0] != "exec" or s.pre is None:
+            continue
+        k = t[5]
+        if s.pre["stopped"] and k in SIX and s.res != "err":
+            out.append({"step": s.idx, "what": "%s returned %s while the contract is halted" % (k, s.res)})
+        if s.res != "ok" or s.st is None:
+            continue
+        who = unhex(t[3]).decode("utf-8", "replace")
+        if k == "breaker":
+            if strip(s.st, "stopped") != strip(s.pre, "stopped") or not s.st["stopped"] or s.msgs:
+                out.append({"step": s.idx, "what": "CircuitBreaker changed more than the halted flag"})
+        if k == "resume":
+            if who != s.pre["admin"]:
+                out.append({"step": s.idx, "what": "ResumeContract succeeded for a non-admin"})
+            exp = dict(s.pre); exp["stopped"] = False; exp["N"], exp["L"], exp["reward"] = int(t[6]), int(t[7]), int(t[8])
+            if s.st != exp:
+                diff = [x for x in exp if exp[x] != s.st.get(x)]
+                out.append({"step": s.idx, "what": "ResumeContract: fields %r differ from 'old store with the three totals replaced and the flag cleared'" % diff})
+    return out
+
+
+MONITORS = {"C04": mon_c04, "C15": mon_c15, "C03": mon_c03, "C08": mon_c08, "C10": mon_c10}
